@@ -883,6 +883,15 @@ class Pass2(CompilePass):
         if not node.lvalue.type.is_coercible_to(node.rvalue.type):
             raise CompileError(EC.TYPE_MISMATCH, node=node)
 
+        for side in (node.lvalue, node.rvalue):
+            if side.type.is_array or not side.type.is_builtin:
+                # no code can be generated for copying a whole
+                # record or array
+                raise CompileError(
+                    EC.TYPE_MISMATCH,
+                    'Only values of the builtin types can be assigned',
+                    node=node)
+
         if node.lvalue.base_var in node.parent_routine.local_consts or \
            node.lvalue.base_var in self.compilation.global_consts:
             raise CompileError(EC.DUPLICATE_DEFINITION, node=node)
@@ -909,6 +918,11 @@ class Pass2(CompilePass):
                 node=node)
 
     def process_binary_op_pre(self, node):
+        for operand in (node.left, node.right):
+            if operand.type.is_array:
+                # a whole array is not a value
+                raise CompileError(EC.TYPE_MISMATCH, node=operand)
+
         if node.op.is_comparison:
             if node.left.type.is_numeric and \
                not node.right.type.is_numeric:
@@ -1077,7 +1091,7 @@ class Pass3(CompilePass):
 
         for item in node.items:
             if isinstance(item, Expr):
-                if not item.type.is_builtin:
+                if not item.type.is_builtin or item.type.is_array:
                     raise CompileError(
                         EC.TYPE_MISMATCH,
                         'Cannot print value',
@@ -1089,6 +1103,40 @@ class Pass3(CompilePass):
                 EC.TYPE_MISMATCH,
                 'WHILE condition should be a numeric expression',
                 node=node.cond)
+
+    def process_read_pre(self, node):
+        for var in node.var_list:
+            if not var.type.is_builtin or var.type.is_array:
+                raise CompileError(
+                    EC.TYPE_MISMATCH,
+                    'READ can only have builtin types',
+                    node=var)
+
+    def _check_condition(self, cond, stmt_name):
+        if not cond.type.is_numeric:
+            raise CompileError(
+                EC.TYPE_MISMATCH,
+                f'{stmt_name} condition should be a numeric expression',
+                node=cond)
+
+    def process_if_pre(self, node):
+        self._check_condition(node.cond, 'IF')
+
+    def process_if_block_pre(self, node):
+        for cond, _ in node.if_blocks:
+            self._check_condition(cond, 'IF')
+
+    def process_loop_block_pre(self, node):
+        if node.cond is not None:
+            self._check_condition(node.cond, 'DO/LOOP')
+
+    def process_array_dim_range_pre(self, node):
+        for bound in (node.lbound, node.ubound):
+            if bound is not None and not bound.type.is_numeric:
+                raise CompileError(
+                    EC.TYPE_MISMATCH,
+                    'Array bounds must be numeric',
+                    node=bound)
 
 
 class Compiler:
